@@ -80,6 +80,7 @@ class PinWorld:
         self.last_change = 0.0
         self.switch_busy_until = {}
         self.ambiguous_reentries = 0
+        self.ambiguous_devs = set()
         self.reentry_at_timeout = 0
         self.exact_late_arrivals = 0
         self.late_targets = set()       # devices that received (or are to receive) a ball later than the eject timeout
@@ -289,6 +290,7 @@ class PinWorld:
                     break
                 if e["dev"] == info.name and e["ball"] is not None and e["ball"] != ball.id and e["outcome"] in ("ok", "late"):
                     self.ambiguous_reentries += 1
+                    self.ambiguous_devs.add(info.name)
                     self.ctx.probe("ambiguous_reentry")
                     break
         if info.ball_switches:
